@@ -62,6 +62,19 @@ fn mat_inputs(o: &Opts, rng: &mut Rng) -> Vec<(M3, M3, [f64; 3], [f64; 3], f64)>
             v.push(m);
         }
     }
+    // identity with ONE other entry changed (elementary shears / scalings): every position, two values
+    for i in 0..3 {
+        for j in 0..3 {
+            for cval in [0.5f64, -1.5] {
+                let mut m = ident;
+                m[i][j] = if i == j { 1.0 + cval } else { cval };
+                if i == j && (m[i][j]).abs() < 0.5 {
+                    m[i][j] = 1.5;
+                }
+                v.push(m);
+            }
+        }
+    }
     // diagonal
     for _ in 0..8 {
         let mut m = [[0.0; 3]; 3];
@@ -99,7 +112,8 @@ fn mat_inputs(o: &Opts, rng: &mut Rng) -> Vec<(M3, M3, [f64; 3], [f64; 3], f64)>
     let mut out = Vec::new();
     let nv = v.len();
     for i in 0..nv {
-        let b = v[(i * 7 + 3) % nv];
+        // the structured matrices (the first 60) also serve as right operands of random matrices and vice versa
+        let b = if i < 60 { v[nv - 1 - i] } else if i < 120 { v[i - 60] } else { v[(i * 7 + 3) % nv] };
         let vec = [rng.range(-2.0, 2.0), rng.range(-2.0, 2.0), rng.range(-2.0, 2.0)];
         let u = [rng.range(-2.0, 2.0), rng.range(-2.0, 2.0), rng.range(-2.0, 2.0)];
         let mut x = rng.range(0.25, 2.0);
@@ -295,6 +309,56 @@ pub fn gen_c18(sh: &mut Shards, o: &Opts) -> serde_json::Value {
         ps.push((x, y));
         // small exponents / exponents near 1
         ps.push((x, rng.range(-2.0, 2.0) as f32));
+    }
+    // two-stage screened search for accuracy corners of powf = exp2(y log2 x) (untrusted f64 screen, inputs only):
+    // the log2 error depends on the mantissa alone and is amplified by |y|, the exp2 error on the fractional part of the
+    // product.  Stage 1 ranks mantissas at y = +-80, stage 2 sweeps y finely for the worst mantissas; the worst go to TLC.
+    {
+        let mstride: u32 = if o.thorough { 1 } else { 8 };
+        let keep = if o.thorough { 256 } else { 96 };
+        let ysteps = if o.thorough { 40_000 } else { 2_500 };
+        let score = |x: f32, y: f32| -> f64 {
+            let r = crate::util::guard(|| powf(x, y)).unwrap_or(f32::NAN);
+            let t = f64::from(x).powf(f64::from(y));
+            let dev = ((f64::from(r) - t) / t).abs();
+            let dev = if dev.is_nan() { f64::INFINITY } else { dev };
+            dev / (2.5e-4 + 8e-6 * f64::from(y.abs()))
+        };
+        for y0 in [80.0f32, -80.0] {
+            let mut worst: Vec<(f64, u32)> = Vec::new();
+            let mut m = rng.below(u64::from(mstride)) as u32;
+            while m < 0x80_0000 {
+                let x = f32::from_bits(0x3f80_0000 | m);
+                let sc = score(x, y0);
+                if worst.len() < keep || sc > worst[worst.len() - 1].0 {
+                    worst.push((sc, m));
+                    worst.sort_by(|a, b| b.0.partial_cmp(&a.0).unwrap_or(std::cmp::Ordering::Equal));
+                    worst.truncate(keep);
+                }
+                m += mstride;
+            }
+            for &(_, m) in &worst {
+                for base in [0x3f80_0000u32, 0x3f00_0000, 0x4000_0000] {
+                    let x = f32::from_bits(base | m);
+                    let mut best = [(-1.0f64, 0f32); 2];
+                    for k in 0..ysteps {
+                        let y = y0.signum() * (30.0 + 50.0 * (k as f32 + rng.unit() as f32) / ysteps as f32);
+                        let sc = score(x, y);
+                        if sc > best[1].0 {
+                            best[1] = (sc, y);
+                            if best[1].0 > best[0].0 {
+                                best.swap(0, 1);
+                            }
+                        }
+                    }
+                    for b in best {
+                        if b.0 >= 0.0 {
+                            ps.push((x, b.1));
+                        }
+                    }
+                }
+            }
+        }
     }
     // interleave the exponents (a value-keyed memo of the last exponent / base would otherwise never be disturbed)
     for i in (1..ps.len()).rev() {
